@@ -50,6 +50,20 @@ class Residual(nn.Module):
         return self.fc((a + b).flatten(1))
 
 
+class Residual1d(nn.Module):
+    """the residual topology with 1-d convolutions (the two addends share the output quantizer AND, with the default sharing, the weight quantizer object)"""
+    def __init__(self):
+        super().__init__()
+        self.c0 = nn.Conv1d(1, 2, 1)
+        self.c1 = nn.Conv1d(2, 2, 1)
+        self.fc = nn.Linear(2, 2)
+
+    def forward(self, x):
+        a = self.c0(x)
+        b = self.c1(a)
+        return self.fc((a + b).flatten(1))
+
+
 class DepthwiseFirst(nn.Module):
     """the first layer is a depthwise convolution"""
     def __init__(self):
@@ -76,9 +90,10 @@ class DepthwiseMiddle(nn.Module):
 
 NETS = {'chain': (Chain, {'c0': 'x_input_quantizer', 'c1': 'c0', 'fc': 'c1'}),
         'residual': (Residual, {'c0': 'x_input_quantizer', 'c1': 'c0'}),
+        'residual1d': (Residual1d, {'c0': 'x_input_quantizer', 'c1': 'c0'}),
         'depthwise-first': (DepthwiseFirst, {'c0': 'x_input_quantizer', 'c1': 'c0', 'fc': 'c1'}),
         'depthwise-middle': (DepthwiseMiddle, {'c0': 'x_input_quantizer', 'dw': 'c0', 'fc': 'dw'})}
-SHAPES = {'depthwise-first': (1, 2, 1, 1)}
+SHAPES = {'depthwise-first': (1, 2, 1, 1), 'residual1d': (1, 1, 1)}
 SHAPE = (1, 1, 1, 1)
 
 
@@ -133,6 +148,8 @@ def h_mps_whole(H, net, training):
         sel[n] = _first_max(H, H.elements(a))
     model.eval()
     x = H.const_tensor([[[[0.75]]]]) if shape[1] == 1 else H.const_tensor([[[[0.75]], [[0.375]]]])
+    if len(shape) == 3:
+        x = H.const_tensor([[[0.75]]])
     y_nas = model(x)
     summ = model.summary()
     cost = H.scalar(model.get_cost())
@@ -142,6 +159,11 @@ def h_mps_whole(H, net, training):
     H.observe('y_nas', y_nas)
     H.observe('summary', [(k, v.get('w_precision'), v.get('in_precision'), v.get('out_precision')) for k, v in summ.items()])
     H.ensure('export:exported-network-computes-the-eval-mode-function', H.eq(y_nas, y_exp))
+    # ... on further inputs (the values are concrete here: one input can sit in the middle of a quantization cell and hide a shifted bias or scale)
+    for scale in (0.13, 0.31, 0.52, 0.97):
+        xs = x * scale
+        H.ensure('[C02] export:exported-network-computes-the-eval-mode-function-on-further-inputs', H.eq(model(xs), exported(xs)))
+    model(x)
     # C05: the weight-size metric is the exact size of the reported assignment
     exact = 0
     for name, v in summ.items():
@@ -207,6 +229,14 @@ def h_mps_per_channel(H, net):
         calc = layers[name].input_features_calculator
         H.ensure('[C05,C09] wiring:consumer-is-charged-for-the-alive-channels-of-its-producer', H.eq(H.scalar(calc.features), sum(alive[prod])))
     H.observe('alive', alive)
+    # C05, weight-size metric at model level: when no channel is pruned every weight is stored at the only non-zero precision (8 bit) - the cost is the exact
+    # size of that assignment, with each layer priced by the model of ITS kind (a depthwise layer has k x k x C weights, not k x k x C x C)
+    if all(all(k == 1.0 for k in keep) for keep in alive.values()):
+        exact = 0
+        for name, m in layers.items():
+            if isinstance(m, MPSModule) and hasattr(m, 'w_mps_quantizer'):
+                exact = exact + m.weight.numel() * 8
+        H.ensure('[C05] cost:weight-size-is-exact-when-no-channel-is-pruned', H.eq(H.scalar(model.get_cost()), exact))
 
 
 PROPERTY = {}
@@ -220,6 +250,6 @@ HARNESSES = [
     dict(name='whole-mps-per-channel', bounded='enumerated architectures (contracts/whole_mps.py NETS); selection coefficients symbolic, weights and input CONCRETE', fn='h_mps_per_channel', property=['C05', 'C09'], functions=_FUNCS,
          quick=[dict(net='chain'), dict(net='depthwise-middle')], thorough=[dict(net=n) for n in ('chain', 'residual', 'depthwise-middle')], timeout=120, crosscheck=2),
     dict(name='whole-mps', bounded='enumerated architectures (contracts/whole_mps.py NETS); selection coefficients symbolic, weights and input CONCRETE', fn='h_mps_whole', property=['C02', 'C05', 'C11', 'C07', 'C18'], functions=_FUNCS,
-         quick=[dict(net='chain', training=True), dict(net='residual', training=False), dict(net='depthwise-first', training=False), dict(net='depthwise-middle', training=False)],
+         quick=[dict(net='chain', training=True), dict(net='residual', training=False), dict(net='residual1d', training=False), dict(net='depthwise-first', training=False), dict(net='depthwise-middle', training=False)],
          thorough=[dict(net=n, training=t) for n in NETS for t in _B], timeout=120, crosscheck=2),
 ]
